@@ -132,6 +132,41 @@ def _judge_eps(ctx, ed, eps, p, q, tag):
                       "vectors" % (v, exp), {"p": p, "q": q, "eps": eps, "got": v, "expected": exp})
 
 
+def hostile_pair(r, m):
+    """pairs built to defeat shortcuts: a tie at a huge magnitude next to a small difference, one-ulp differences,
+    sums that overflow, negated huge objectives, denormals"""
+    import math
+    kind = r.choice(["absorb", "ulp", "overflow", "negbig", "denormal"])
+    if kind == "absorb":
+        big = r.choice([1e17, 4e16, 1e12, -1e17, 3e15])
+        p = [big] + [r.choice([1.0, 0.5, 2.0, 1e-3]) for _ in range(m - 1)]
+        q = list(p)
+        if m > 1:
+            k = r.randrange(1, m)
+            q[k] = p[k] + r.choice([1.0, -1.0, 0.5, 1e-3])
+        else:
+            q[0] = math.nextafter(p[0], math.inf)
+    elif kind == "ulp":
+        p = [r.uniform(-1, 1) for _ in range(m)]
+        q = list(p)
+        k = r.randrange(m)
+        q[k] = math.nextafter(p[k], r.choice([math.inf, -math.inf]))
+    elif kind == "overflow":
+        p = [r.choice([1e308, -1e308, 1.7e308]) for _ in range(m)]
+        q = list(p)
+        k = r.randrange(m)
+        q[k] = p[k] * r.choice([0.5, 0.999]) if r.random() < 0.7 else p[k]
+        if m > 1 and r.random() < 0.5:
+            p[-1], q[-1] = 1.0, 2.0
+    elif kind == "negbig":
+        p = [r.uniform(0, 2)] + [-4e16] * (m - 1)
+        q = [p[0] + r.choice([0.5, -0.5, 0.0])] + [-4e16] * (m - 1)
+    else:
+        p = [r.choice([5e-324, 0.0, -0.0, 2.2e-308]) for _ in range(m)]
+        q = [r.choice([5e-324, 0.0, -0.0, 2.2e-308]) for _ in range(m)]
+    return p, q
+
+
 def _conv(r, vec):
     """randomly present values as numpy float64 / Python float"""
     k = r.random()
@@ -173,6 +208,9 @@ def run_case(ctx, name, params):
             style = r.choice(["grid", "grid_neg", "dyadic", "float", "wide"])
             p = gen.cost_vector(r, m, style)
             q = gen.related_vector(r, p) if r.random() < 0.7 else gen.cost_vector(r, m, style)
+            if r.random() < 0.15:
+                p, q = hostile_pair(r, m)
+                ctx.count("hostile_numeric_pairs")
             mp = gen.marker_value(r)
             mq = mp if r.random() < 0.6 else gen.marker_value(r)
             P, Q = _conv(r, p + [mp]), _conv(r, q + [mq])
